@@ -407,9 +407,14 @@ func TestPropRule(t *testing.T) {
 				}
 			}
 		}
+		// a write counts as missing once nothing at all has arrived for 5 s
 		waitUntil := time.Now().Add(5 * time.Second)
 		for len(got) < len(predicted) && time.Now().Before(waitUntil) {
+			n := len(got)
 			collect(20 * time.Millisecond)
+			if len(got) > n {
+				waitUntil = time.Now().Add(5 * time.Second)
+			}
 		}
 		collect(60 * time.Millisecond)
 
